@@ -72,7 +72,83 @@ fn gen_structured(rng: &mut Sm64, n: usize) -> Vec<u64> {
 pub fn corr(ctx: &mut Ctx) {
     cases::<FnvHasher>(ctx, false);
     cases::<probminhash::nohasher::NoHashHasher>(ctx, true);
+    typed_cases(ctx);
     tail(ctx);
+}
+
+/// data types other than u64 (one-byte symbols, chars, strings, pairs) and hashers other than FNV / identity (SipHash with the
+/// fixed keys of `DefaultHasher::new`, WyHash): small alphabets so that every symbol repeats and appears in different orders.
+/// The model receives the hash the real hasher gives each typed element; permutations must select the same pairs (l = 1: same
+/// signature); the signature must be the model's.
+fn typed_case<D: std::hash::Hash + Eq + Clone + std::fmt::Debug, H: std::hash::Hasher + Default>(ctx: &mut Ctx, tname: &str, hname: &str, conv: &dyn Fn(u64) -> D, c: u64) {
+    const SEED: u64 = 0x1234_5678_9abc_def0;
+    let mut rng = ctx.rng.fork();
+    // (all three drawn from the generator: index arithmetic on the case number had correlated them with the data type)
+    let _ = c;
+    let m = *rng.pick(&[1u32, 2, 8, 16]);
+    let l = *rng.pick(&[1usize, 1, 2, 3]);
+    let alphabet = *rng.pick(&[3u64, 7, 40, 200, 200]);
+    let n = l + 3 + rng.below(30) as usize + if alphabet >= 40 { 40 } else { 0 };
+    let ids = gen_seq(&mut rng, n, alphabet);
+    let seq: Vec<D> = ids.iter().map(|x| conv(*x)).collect();
+    let htok = |d: &D| hx(hash_with::<H, D>(d));
+    ctx.begin_case(&format!("ord typed D={} H={} m={} l={} n={}", tname, hname, m, l, n));
+    ctx.mark_nontrivial();
+    ctx.count(&format!("ord data type {} hasher {}", tname, hname));
+    let mut p = ProbOrdMinHash2::<H>::new(m, l);
+    p.verif_set_seed(SEED);
+    ctx.op(&format!("ord new a {} {} {}", m, l, hx(SEED)));
+    let hashes: Vec<String> = seq.iter().map(|d| htok(d)).collect();
+    match catch(std::panic::AssertUnwindSafe(|| p.hash_set(&seq))) {
+        Ok(sig) => {
+            let (ix, vals) = p.verif_store();
+            ctx.line(&format!("ord set a {}", hashes.join(" ")), &format!("{} | {}", join(&ix), join_fhx(&vals)));
+            ctx.line(&format!("ord sig a {} {}", hx(p.verif_wyhash_seed()), hashes.join(" ")), &join(&sig));
+            // permutations: same selected (hash, occurrence) pairs per position; l = 1: same signature
+            let hs: Vec<u64> = seq.iter().map(|d| hash_with::<H, D>(d)).collect();
+            let sel = selected_pairs(&hs, &ix, m as usize, l);
+            for _ in 0..4 {
+                let mut order: Vec<u64> = (0..seq.len() as u64).collect();
+                rng.shuffle(&mut order);
+                let pm: Vec<D> = order.iter().map(|i| seq[*i as usize].clone()).collect();
+                let hs2: Vec<u64> = pm.iter().map(|d| hash_with::<H, D>(d)).collect();
+                let sig2 = p.hash_set(&pm);
+                let (ix2, _) = p.verif_store();
+                let sel2 = selected_pairs(&hs2, &ix2, m as usize, l);
+                if sel2 != sel || (l == 1 && sig2 != sig) {
+                    ctx.oracle_failure(serde_json::json!({"kind":"impl_violates_property","what":"selection at a position depends on where elements sit in the sequence (typed data)","data_type":tname,"hasher":hname,
+                        "m":m,"l":l,"seq":format!("{:?}", seq),"perm":format!("{:?}", pm)}));
+                    break;
+                }
+            }
+        }
+        Err(msg) => {
+            ctx.line(&format!("ord set a {}", hashes.join(" ")), "PANIC");
+            ctx.oracle_failure(serde_json::json!({"kind":"impl_violates_property","what":"hash_set panicked on typed data","data_type":tname,"hasher":hname,"msg":msg}));
+        }
+    }
+}
+
+fn typed_cases(ctx: &mut Ctx) {
+    use std::collections::hash_map::DefaultHasher;
+    use wyhash::WyHash;
+    for c in 0..ctx.n(48, 480) {
+        let k = c / 12;
+        match c % 12 {
+            0 => typed_case::<u8, FnvHasher>(ctx, "u8", "Fnv", &|x| x as u8, k),
+            1 => typed_case::<u8, DefaultHasher>(ctx, "u8", "SipHash", &|x| x as u8, k),
+            2 => typed_case::<u8, WyHash>(ctx, "u8", "WyHash", &|x| x as u8, k),
+            3 => typed_case::<i8, WyHash>(ctx, "i8", "WyHash", &|x| (x as i8).wrapping_neg(), k),
+            4 => typed_case::<bool, DefaultHasher>(ctx, "bool", "SipHash", &|x| x % 2 == 0, k),
+            5 => typed_case::<char, DefaultHasher>(ctx, "char", "SipHash", &|x| char::from_u32(0x3b1 + x as u32).unwrap_or('?'), k),
+            6 => typed_case::<String, WyHash>(ctx, "String", "WyHash", &|x| format!("s{}", x), k),
+            7 => typed_case::<(u8, u8), FnvHasher>(ctx, "(u8,u8)", "Fnv", &|x| (x as u8, (x >> 3) as u8), k),
+            8 => typed_case::<u16, WyHash>(ctx, "u16", "WyHash", &|x| x as u16, k),
+            9 => typed_case::<u32, DefaultHasher>(ctx, "u32", "SipHash", &|x| x as u32, k),
+            10 => typed_case::<usize, WyHash>(ctx, "usize", "WyHash", &|x| x as usize, k),
+            _ => typed_case::<[u8; 2], DefaultHasher>(ctx, "[u8;2]", "SipHash", &|x| [x as u8, 7], k),
+        }
+    }
 }
 
 fn cases<H: std::hash::Hasher + Default>(ctx: &mut Ctx, structured: bool) {
